@@ -751,7 +751,7 @@ class Messenger(Connection):
                         length=pkt.payload.length
                     )
                 elif msgcls == messages.TransferRefuse:
-                    self.recv_xfer_refuse(pkt.payload.transfer_id, pkt.flags)
+                    self.recv_xfer_refuse(pkt.payload.transfer_id, pkt.payload.reason)
 
                 else:
                     # Bad RX message
@@ -1129,7 +1129,7 @@ class Messenger(Connection):
 
         self.send_message(messages.MessageHead() /
                           messages.TransferRefuse(transfer_id=transfer_id,
-                                                  flags=reason))
+                                                  reason=reason))
 
 
 class BundleItem(object):
